@@ -93,6 +93,11 @@ def search(pid, record):
     if pid == "C09":
         import durability
         return durability.search(binary)
+    if pid == "C03":
+        import crashsearch
+        r = crashsearch.search(binary)
+        if r.get("found"):
+            return r
     if record.get("file", "").startswith("src/storage/"):
         seed = os.environ.get("VERIF_SEED", "0") or "0"
         p = _run(binary, ["store-search", seed], timeout=600)
@@ -135,6 +140,10 @@ def execute(w):
         p = _run(binary, args, timeout=600)
         found = p.returncode != 0 or any(l.startswith("{") and json.loads(l).get("found") for l in p.stdout.splitlines())
         return (not found), p.stdout.strip()[-700:]
+    if w.get("scenario") == "crash":
+        import crashsearch
+        r = crashsearch.search(binary)
+        return (not r.get("found")), json.dumps(r)[:700]
     if w.get("scenario") == "durability":
         import durability
         r = durability.search(binary)
